@@ -9,8 +9,9 @@
 EXTENDS Signer, Json, IOUtils, TLCExt
 
 Traces == JsonDeserialize(IOEnv.TRACE_FILE)
-VARIABLES tid, l
-tvars == <<vars, tid, l>>
+VARIABLES tid, l,
+          fd     \* digest of everything outside the unlocking data, as last logged
+tvars == <<vars, tid, l, fd>>
 T == Traces[tid]
 Ev == T.ev
 Cur == Ev[l]
@@ -23,10 +24,10 @@ TInit == /\ TLCSet(1, {})
          /\ coin = T.coin /\ shape = T.shape
          /\ signed = [i \in 1..Len(T.shape) |-> Pairs(T.pre[i])]
          /\ valid = [i \in 1..Len(T.shape) |-> Cardinality(Pairs(T.pre[i])) >= T.shape[i].m]
-         /\ frame = T.frame
+         /\ frame = FrameOf(T.shape) /\ fd = T.frame
          /\ unlock = [i \in 1..Len(T.shape) |-> 0]
          /\ offered = [i \in 1..Len(T.shape) |-> {p[1] : p \in Pairs(T.pre[i])}]
-         /\ kcReg = {} /\ kcSec = {} /\ kcScr = FALSE /\ npass = 0
+         /\ kcReg = {} /\ kcSec = {} /\ kcScr = FALSE /\ npass = 0 /\ nouts = T.nout
 
 PassOf(e) == [mech |-> e.mech, K |-> ToSet(e.K), I |-> ToSet(e.I), ht |-> e.ht, scr |-> e.scr,
               reg |-> ToSet(e.reg), sec |-> ToSet(e.sec), fresh |-> e.fresh, ic |-> e.ic]
@@ -34,28 +35,39 @@ PassOf(e) == [mech |-> e.mech, K |-> ToSet(e.K), I |-> ToSet(e.I), ht |-> e.ht, 
 \* registering paths / adding secrets / adding scripts to the long-lived keychain
 TKcAdd == /\ l <= Len(Ev) /\ Cur.mech = "kc_add"
           /\ KcAdd(ToSet(Cur.reg), ToSet(Cur.sec), Cur.scr)
-          /\ Cur.frame = frame /\ Cur.changed = <<>>
+          /\ Cur.frame = fd /\ Cur.changed = <<>>
           /\ \A i \in Ins : Pairs(Cur.signed[i]) = signed[i] /\ Cur.valid[i] = valid[i]
-          /\ Cur.bad = BadNow /\ ~Cur.raised
-          /\ l' = l + 1 /\ UNCHANGED tid
+          /\ Cur.bad = BadNow /\ ~Cur.raised /\ NotAccumulated(Cur.nsig)
+          /\ l' = l + 1 /\ UNCHANGED <<tid, fd>>
+\* the caller edited one field of the transaction: the signatures whose hash type commits to it are
+\* stale now, the others survive; the unlocking data is as it was; the frame digest is a new one
+TEdit == /\ l <= Len(Ev) /\ Cur.mech = "edit"
+         /\ Edit([m |-> Cur.field, a |-> Cur.pos, b |-> 0])
+         /\ signed' = [i \in Ins |-> Pairs(Cur.signed[i])]
+         /\ valid' = [i \in Ins |-> Cur.valid[i]]
+         /\ \A i \in Ins : Cur.reported[i] = Cur.valid[i]
+         /\ Cur.bad = BadNow' /\ ~Cur.raised /\ Cur.changed = <<>> /\ NotAccumulated(Cur.nsig)
+         /\ Cur.frame # fd /\ fd' = Cur.frame
+         /\ l' = l + 1 /\ UNCHANGED tid
 \* create_signed_tx raised SecretExponentMissing: legitimate iff the pass can leave an input failing
 \* (there is no transaction to look at afterwards; the session ends here)
 TCreateRaised == /\ l <= Len(Ev) /\ Cur.mech = "create_signed" /\ Cur.raised
                  /\ \E ch \in PassChoices(PassOf(Cur), NIn) : BadAfter(ch) > 0 /\ SignPassWith(PassOf(Cur), ch)
-                 /\ l' = l + 1 /\ UNCHANGED tid
-TStep == /\ l <= Len(Ev) /\ Cur.mech # "kc_add" /\ ~Cur.raised
+                 /\ l' = l + 1 /\ UNCHANGED <<tid, fd>>
+TStep == /\ l <= Len(Ev) /\ Cur.mech \notin {"kc_add", "edit"} /\ ~Cur.raised
          /\ Cur.same_as_fresh                    \* a fresh keychain with the same contents signs the same
          /\ SignPassWith(PassOf(Cur), [i \in Ins |-> {e[1] : e \in ToSet(Cur.signed[i])}])
          /\ signed' = [i \in Ins |-> Pairs(Cur.signed[i])]
          /\ valid' = [i \in Ins |-> Cur.valid[i]]
-         /\ Cur.frame = frame                                   \* nothing outside the unlocking data moved
+         /\ Cur.frame = fd                                      \* nothing outside the unlocking data moved
+         /\ NotAccumulated(Cur.nsig)                            \* stale signatures replaced, not kept alongside
          /\ \A i \in ToSet(Cur.changed) : unlock'[i] # unlock[i]  \* only inputs the pass may rewrite changed
          /\ Cur.canonical                                       \* every signature present: strict DER, low S
          /\ \A i \in Ins : Cur.reported[i] = Cur.valid[i]       \* is_solution_ok agrees
          /\ Cur.bad = BadNow'                                   \* bad_solution_count() = failing inputs
          /\ Cur.mech = "create_signed" => BadNow' = 0           \* it returned: everything must be signed
-         /\ l' = l + 1 /\ UNCHANGED tid
-TSpec == TInit /\ [][TStep \/ TKcAdd \/ TCreateRaised]_tvars
+         /\ l' = l + 1 /\ UNCHANGED <<tid, fd>>
+TSpec == TInit /\ [][TStep \/ TKcAdd \/ TCreateRaised \/ TEdit]_tvars
 
 Reached == IF l = Len(Ev) + 1 THEN TLCSet(1, TLCGet(1) \cup {tid}) ELSE TRUE
 \* diagnosis of a rejected trace (harness sends the trace cut after its first rejected event): in the
